@@ -11,7 +11,7 @@ func (f FileSpec) driver(pkgName, caseDir string) string {
 	var b strings.Builder
 	w := func(format string, a ...any) { fmt.Fprintf(&b, format+"\n", a...) }
 	goType := func(i int) string {
-		switch i {
+		switch f.kind(i) {
 		case 1:
 			return "Out"
 		case 2:
@@ -22,13 +22,13 @@ func (f FileSpec) driver(pkgName, caseDir string) string {
 		return "In"
 	}
 	mk := func(i int, expr string) string {
-		if i == 3 {
+		if f.kind(i) == 3 {
 			return "&wrapperspb.BytesValue{Value: " + expr + "}"
 		}
 		return "&" + goType(i) + "{V: " + expr + "}"
 	}
 	get := func(i int, expr string) string {
-		if i == 3 {
+		if f.kind(i) == 3 {
 			return expr + ".GetValue()"
 		}
 		return expr + ".GetV()"
@@ -36,7 +36,7 @@ func (f FileSpec) driver(pkgName, caseDir string) string {
 	usesOther, usesWk := false, false
 	for _, s := range f.Services {
 		for _, m := range s.Methods {
-			for _, i := range []int{m.In, m.Out} {
+			for _, i := range []int{f.kind(m.In), f.kind(m.Out)} {
 				usesOther = usesOther || i == 2
 				usesWk = usesWk || i == 3
 			}
